@@ -5,6 +5,7 @@ for l in open('/verif/properties.jsonl'):
     p = json.loads(l); props[p['id']] = p
 taken = {}
 for d in sorted(glob.glob('/verif/seeded/*/')):
+    if not os.path.exists(d + 'meta.json'): continue
     m = json.load(open(d + 'meta.json'))
     patch = open(d + 'patch.diff').read()
     files = sorted(set(re.findall(r"^\+\+\+ b/(\S+)", patch, re.M)))
